@@ -95,6 +95,17 @@ def make_cases(rng, tier, n):
                     ops.append(("write", d_ + b"/second-gen.bin", "g:%d:%d" % (rng.randrange(1000), rng.choice([0, 7, 65537]))))
                 ops.append(("commit", rng.choice("lc"), commit_targets))
                 stats["second_generation"] = stats.get("second_generation", 0) + 1
+        if i % 20 == 6:
+            # a directory committed as copies; then tracked files are replaced by other bytes of the SAME length that carry an OLD
+            # timestamp (cp -p, rsync -t, tar x, mv of an older version) and the tree is committed again: it comes back as it was last seen
+            tr_ = [e for e in c["init"] if e[0] == "file" and e[2].startswith("g:") and int(e[2].split(":")[2]) > 0 and
+                   any(e[1].startswith(a_[0] + b"/") for a_ in s1eval.artifacts(c) if "d" in a_[1] and "s" not in a_[1] and "r" not in a_[1])]
+            if tr_:
+                ops = [("commit", "c", commit_targets)]
+                for e in rng.sample(tr_, min(len(tr_), 3)):
+                    ops.append(("writeold", e[1], "g:%d:%s" % (rng.randrange(100000, 200000), e[2].split(":")[2])))
+                ops.append(("commit", "c" if (i // 20) % 2 == 0 else "l", commit_targets))
+                stats["same_size_old_mtime_recommit"] = stats.get("same_size_old_mtime_recommit", 0) + 1
         if i % 20 == 9:
             # the cache is lost (a new, empty cache) while the workspace holds regular files and the stage files their checksums: the
             # tree is committed again and must come back from the new cache
